@@ -23,11 +23,13 @@ type Batch struct {
 	OK      map[int]bool   // generated and (so far) believed to compile
 	BadComp map[int]string // id -> first compile error
 	Reg     map[int]string // id -> Go expression of the callable (reflect.ValueOf(...))
+	API     map[int]string // id -> body of an assertion file (package api<id>) checking the declared API
+	BadAPI  map[int]string // id -> first compile error of the assertion
 	Timing  map[string]time.Duration
 }
 
 func NewBatch(work string) *Batch {
-	return &Batch{Work: work, Mod: "v.test/b", OK: map[int]bool{}, BadComp: map[int]string{}, Reg: map[int]string{}, Timing: map[string]time.Duration{}}
+	return &Batch{Work: work, Mod: "v.test/b", OK: map[int]bool{}, BadComp: map[int]string{}, Reg: map[int]string{}, API: map[int]string{}, BadAPI: map[int]string{}, Timing: map[string]time.Duration{}}
 }
 
 func (b *Batch) WriteGoMod() {
@@ -44,6 +46,7 @@ func (b *Batch) WriteOutputs(id int, files map[string][]byte) {
 	b.OK[id] = true
 }
 
+var apiErr = regexp.MustCompile(`(?m)^(?:\./)?api(\d+)/api\.go:\d+:\d+: (.*)$`)
 var compErr = regexp.MustCompile(`(?m)^(?:\./)?gen/c(\d+)\.go:\d+:\d+: (.*)$`)
 
 // BuildDriver writes the registry and the driver and builds it; generated files that do not compile are
@@ -57,6 +60,16 @@ func (b *Batch) BuildDriver(extraImports []string, race bool) error {
 		reg.WriteString("//go:build !goverter\n\npackage main\n\nimport (\n\t\"reflect\"\n\tgen \"" + b.Mod + "/gen\"\n")
 		for _, imp := range extraImports {
 			reg.WriteString("\t" + imp + "\n")
+		}
+		for id, body := range b.API {
+			if b.OK[id] && b.BadAPI[id] == "" {
+				dir := filepath.Join(b.Work, fmt.Sprintf("api%d", id))
+				Must(os.MkdirAll(dir, 0o755))
+				Must(os.WriteFile(filepath.Join(dir, "api.go"), []byte(fmt.Sprintf("//go:build !goverter\n\npackage api%d\n\n%s", id, body)), 0o644))
+				reg.WriteString(fmt.Sprintf("\t_ \"%s/api%d\"\n", b.Mod, id))
+			} else {
+				os.RemoveAll(filepath.Join(b.Work, fmt.Sprintf("api%d", id)))
+			}
 		}
 		reg.WriteString(")\n\nvar _ = gen.Keep\n\nvar setFaults = map[int]func(bool){}\n\nvar registry = map[int]reflect.Value{\n")
 		ids := make([]int, 0, len(b.Reg))
@@ -83,6 +96,16 @@ func (b *Batch) BuildDriver(extraImports []string, race bool) error {
 			return nil
 		}
 		ms := compErr.FindAllStringSubmatch(out, -1)
+		as := apiErr.FindAllStringSubmatch(out, -1)
+		for _, m := range as {
+			id, _ := strconv.Atoi(m[1])
+			if b.BadAPI[id] == "" {
+				b.BadAPI[id] = m[2]
+			}
+		}
+		if len(ms) == 0 && len(as) > 0 {
+			continue
+		}
 		if len(ms) == 0 {
 			return fmt.Errorf("driver build failed (not attributable to a generated file):\n%s", out)
 		}
